@@ -343,3 +343,82 @@ Proof.
   - left. rewrite upd_same. auto.
   - right. rewrite upd_same. auto.
 Qed.
+
+(* ------------------------------------------------------------------------------------------ *)
+(* Hand-off: ONE buffered token serves SEVERAL waiting Gets.  Two Gets are at their select (parked
+   or about to park: the semantics does not distinguish, the receive is enabled as soon as the
+   token is there) and at least two full fresh batches are cached.  Then the first Get can take
+   the token and the first batch, must pass the wake-up on (it leaves its section through
+   PGetSig, i.e. re-signals), and the second Get can take the re-sent token and the next batch. *)
+
+Inductive csteps : cstate -> cstate -> Prop :=
+| cs_refl s : csteps s s
+| cs_step s i l s' s'' : cstep s i l s' -> csteps s' s'' -> csteps s s''.
+
+Lemma csteps_reach bs s s' : creach bs s -> csteps s s' -> creach bs s'.
+Proof. intros R H. induction H; auto. apply IHcsteps. eapply cr_step; eauto. Qed.
+
+Lemma csteps_trans s1 s2 s3 : csteps s1 s2 -> csteps s2 s3 -> csteps s1 s3.
+Proof. induction 1; intros; auto. econstructor; eauto. Qed.
+
+Theorem handoff_two_waiters bs s i j : creach bs s -> 1 <= bs ->
+  2 * bs <= len (filter (fresh (seqs (sh s))) (cache (sh s))) ->
+  lock s = None -> (forall t, pcs s t <> PGetRecv) ->
+  i <> j -> pcs s i = PGetWait -> pcs s j = PGetWait ->
+  let F := filter (fresh (seqs (sh s))) (cache (sh s)) in
+  exists s' b1 b2,
+    csteps s s' /\
+    pcs s' i = PGetDone b1 /\ (pcs s' j = PGetDone b2 \/ pcs s' j = PGetSig b2) /\
+    b1 = firstn (N.to_nat bs) F /\ b2 = firstn (N.to_nat bs) (skipn (N.to_nat bs) F).
+Proof.
+  intros R H1 H2 HL HR Hij Hi Hj F.
+  assert (H2' : bs <= len (filter (fresh (seqs (sh s))) (cache (sh s)))) by lia.
+  destruct (no_lost_wakeup bs s i R H1 H2' HL HR Hi) as (s1 & s2 & b1 & S1 & S2 & Hb1 & Hpc).
+  pose proof (cr_step _ _ _ _ _ R S1) as R1.
+  pose proof (conc_extract_oldest_fresh bs s1 i b1 s2 R1 S2) as (Hl1 & _ & _ & Hseq & ex & Hc & Hex).
+  (* the state in which i extracts is s with the token taken *)
+  assert (Esh : sh s1 = unsignal (sh s) /\ pcs s1 = upd (pcs s) i PGetRecv /\ lock s1 = None).
+  { inversion S1; subst; cbn; try congruence. rewrite HL. auto. }
+  destruct Esh as (Esh & Epc1 & EL1).
+  rewrite Esh in Hc, Hex, Hseq. cbn [unsignal seqs cache] in Hc, Hex, Hseq.
+  (* what is left is still a full fresh batch *)
+  assert (HF : F = b1 ++ filter (fresh (seqs (sh s))) (cache (sh s2))).
+  { unfold F. rewrite Hc, filter_app, Hex. reflexivity. }
+  assert (Hlen1 : length b1 = N.to_nat bs) by (unfold len in Hl1; lia).
+  assert (Hrest : skipn (N.to_nat bs) F = filter (fresh (seqs (sh s))) (cache (sh s2))).
+  { rewrite HF, <- Hlen1, skipn_app, skipn_all, Nat.sub_diag. reflexivity. }
+  assert (Hcnt : bs <= len (filter (fresh (seqs (sh s2))) (cache (sh s2)))).
+  { rewrite Hseq, <- Hrest. unfold len in *. rewrite skipn_length. fold F in H2. lia. }
+  (* so i leaves through PGetSig and still holds the mutex *)
+  assert (E2 : pcs s2 = upd (pcs s1) i (PGetSig b1) /\ lock s2 = Some i /\ g_acc s2 = g_acc s1).
+  { inversion S2; subst; cbn.
+    - exfalso. match goal with H : has_full _ = false |- _ => apply not_full_few in H end.
+      pose proof (safe_bs _ _ _ _ (ci_safe _ _ (cinv_reach _ _ (cr_step _ _ _ _ _ R1 S2)))) as B.
+      cbn in B, Hcnt. unfold ff in *. lia.
+    - auto. }
+  destruct E2 as (Epc2 & EL2 & _).
+  set (s3 := mkC (signal (sh s2)) None (upd (pcs s2) i (PGetDone b1)) (g_acc s2) (g_out s2)).
+  assert (S3 : cstep s2 i LSignal s3).
+  { apply s_get_signal; auto. rewrite Epc2. apply upd_same. }
+  pose proof (cr_step _ _ _ _ _ (cr_step _ _ _ _ _ R1 S2) S3) as R3.
+  assert (Hj3 : pcs s3 j = PGetWait).
+  { cbn. rewrite upd_other by auto. rewrite Epc2, upd_other by auto. rewrite Epc1, upd_other by auto. exact Hj. }
+  assert (HR3 : forall t, pcs s3 t <> PGetRecv).
+  { intros t. cbn. destruct (Nat.eq_dec t i) as [->|Hne].
+    - rewrite upd_same. discriminate.
+    - rewrite upd_other by auto. rewrite Epc2, upd_other by auto. rewrite Epc1, upd_other by auto. apply HR. }
+  assert (Hcnt3 : bs <= len (filter (fresh (seqs (sh s3))) (cache (sh s3)))) by exact Hcnt.
+  destruct (no_lost_wakeup bs s3 j R3 H1 Hcnt3 eq_refl HR3 Hj3) as (s4 & s5 & b2 & S4 & S5 & Hb2 & Hpc5).
+  exists s5, b1, b2. repeat split.
+  - eapply cs_step; [exact S1|]. eapply cs_step; [exact S2|]. eapply cs_step; [exact S3|].
+    eapply cs_step; [exact S4|]. eapply cs_step; [exact S5|]. apply cs_refl.
+  - (* i stays done while j moves *)
+    assert (E4 : pcs s4 i = pcs s3 i).
+    { inversion S4; subst; cbn; rewrite upd_other; auto. }
+    assert (E5 : pcs s5 i = pcs s4 i).
+    { inversion S5; subst; cbn; rewrite upd_other; auto. }
+    rewrite E5, E4. cbn. apply upd_same.
+  - exact Hpc5.
+  - exact Hb1.
+  - rewrite Hb2. cbn [s3 sh signal seqs cache]. rewrite Hseq, Hrest. reflexivity.
+Qed.
